@@ -64,9 +64,11 @@ SIG_F8 = "Spawner:Pool:two-active-sources-for-one-address"
 POOL_CFGS = {  # Gen/MC/CE configuration suffix -> constants the harness needs
     "C1": dict(Count=1, Ignore=[4]), "C2": dict(Count=2, Ignore=[4]), "C3": dict(Count=3, Ignore=[4]),
     "T3": dict(Count=3, Ignore=[5]),
+    # two ignored addresses, configured in descending order (the list is used as written in the configuration file)
+    "I2": dict(Count=2, Ignore=[3, 1]),
 }
 POOL_TRACE = {  # configurations of the random sessions validated by Trace_SpawnerPool
-    "W4": dict(Count=4, Ignore=[7, 8], NAddr=8, MaxAns=6),
+    "W4": dict(Count=4, Ignore=[8, 2, 5], NAddr=8, MaxAns=6),
     "W2": dict(Count=2, Ignore=[3], NAddr=5, MaxAns=4),
     "W6": dict(Count=6, Ignore=[], NAddr=9, MaxAns=8),
 }
@@ -211,7 +213,7 @@ def run_c35(out, tier, seed):
     out.assumptions += ["DNS answers scripted through the crate's cfg(test) hardcoded resolver; lookup failure = resolver error on an invalid host name",
                         "NTS pool spawner (needs a live TLS key-exchange server per spawn) is not exercised",
                         "addresses differ in their IP part only (one port)"]
-    cfgs = ["C2", "C3"] if tier == "quick" else ["C1", "C2", "C3", "T3"]
+    cfgs = ["C2", "C3", "I2"] if tier == "quick" else ["C1", "C2", "C3", "T3", "I2"]
     # (M) as coded: the other clauses hold, C35_Distinct fails -> counterexamples executed on the implementation
     for c in ([] if tier == "quick" else ["C1", "C2", "C3"]):
         res = vf.run_tlc("MC_SpawnerPool", "MC_SpawnerPool_Coded_%s.cfg" % c, workers=8, timeout=1500, tags=(), coverage=False)
